@@ -330,6 +330,24 @@ func c13Boundary(c *Ctx, i int64, which int) {
 				c.Violation(key, fmt.Sprintf("streaming total %d split tail: Sum32 %08x, reference %08x", total, got2, want), map[string]interface{}{"total": total, "chunk": chunk})
 			}
 		}
+		// a write that ends exactly on 2^32, then the rest (one write, and byte by byte)
+		if k >= 16 {
+			for v := 0; v < 2; v++ {
+				xx = x
+				xx.Write(tail[:16])
+				if v == 0 {
+					xx.Write(tail[16:k])
+				} else {
+					for j := 16; j < k; j++ {
+						xx.Write(tail[j : j+1])
+					}
+				}
+				c.Count("boundary_probes_write_ending_on_2^32", 1)
+				if got3 := xx.Sum32(); got3 != want {
+					c.Violation("stream/len>=2^32", fmt.Sprintf("streaming total %d with a write ending exactly on 2^32 and %d more bytes after it: Sum32 %08x, reference %08x", total, k-16, got3, want), map[string]interface{}{"total": total, "chunk": chunk})
+				}
+			}
+		}
 	}
 	c.Sample(map[string]interface{}{"kind": "boundary", "chunk": chunk, "totals": "2^32-16 .. 2^32+16"})
 }
